@@ -132,9 +132,15 @@ def encoder_table(F, rep):
     return rows
 
 
+def decode_node_fn(F):
+    """the function that decodes one node: `decode::decode_node`, or whatever it was renamed to (the only function of the
+    bit_encoding module returning Result<DecodeNode, _>)"""
+    return F.fn_sig(DEC + "decode_node", "simplicity::bit_encoding::", ret=("Result<", "::DecodeNode,"), nargs=2)
+
+
 def decoder_table(F, rep):
-    f = F.fn(DEC + "decode_node")
-    f = F.inlined(f, CODEC_VOCAB) if f is not None else None
+    f = decode_node_fn(F)
+    f = F.inlined(f, CODEC_VOCAB + (f.name,)) if f is not None else None
     if f is None:
         rep.anchor("C01.codec", DEC + "decode_node")
         return None
@@ -166,7 +172,7 @@ def decoder_table(F, rep):
         for b in blocks:
             t = f.blocks[b]["t"]
             for s in f.blocks[b]["s"]:
-                if s[0] == "=" and s[2].get("k") == "agg" and s[2].get("adt", "").endswith("decode::DecodeNode"):
+                if s[0] == "=" and s[2].get("k") == "agg" and s[2].get("adt", "").endswith("::DecodeNode"):
                     built = (s[2]["variant"], [T.operand(o) for o in s[2]["ops"]])
             if t["k"] != "call" or "path" not in t["f"]:
                 continue
@@ -214,7 +220,7 @@ def expression_map(F, rep):
         return None
     out = {}
     T = Terms(f)
-    for b, si in enum_switches(f, "decode::DecodeNode"):
+    for b, si in enum_switches(f, "::DecodeNode"):
         for v, tgt in si[2].items():
             reg = f.dominated_by(tgt)
             ms = set()
@@ -319,7 +325,7 @@ def run(ctx, rep):
             elif "EncodeNode" in s:
                 views.append((f, "node::inner::Inner", ENCODE_ARITY, "DagLike for EncodeNode"))
             elif "DecodeNode" in s:
-                views.append((f, "decode::DecodeNode", DECODE_ARITY, "DagLike for (usize, &[DecodeNode])"))
+                views.append((f, "::DecodeNode", DECODE_ARITY, "DagLike for (usize, &[DecodeNode])"))
         if f.name in ("as_dag", "into_dag") and f.impl_adt == vcc.INNER:
             views.append((f, "node::inner::Inner", NODE_ARITY, "Inner::" + f.name))
     rep.floor("C01.arity(views)", len(views), 6)
